@@ -25,12 +25,23 @@ from vizier._src.service import pythia_service_pb2_grpc
 from vizier._src.service import vizier_service_pb2_grpc
 
 
+# A study's trials are listed (and handed to Pythia) in one message, which
+# soon exceeds gRPC's default limit of 4 MB; the in-process service has no
+# limit, so a remote one must not have one either.
+GRPC_MESSAGE_SIZE_OPTIONS = (
+    ('grpc.max_send_message_length', -1),
+    ('grpc.max_receive_message_length', -1),
+)
+
+
 def _create_channel(
     endpoint: str, timeout: Optional[float] = None
 ) -> grpc.Channel:
   """Creates GRPC channel."""
   logging.info('Securing channel to %s.', endpoint)
-  channel = grpc.insecure_channel(endpoint)
+  channel = grpc.insecure_channel(
+      endpoint, options=GRPC_MESSAGE_SIZE_OPTIONS
+  )
   grpc.channel_ready_future(channel).result(timeout=timeout)
   logging.info('Created channel to %s.', endpoint)
   return channel
